@@ -27,7 +27,9 @@ def tableJson (env : Validate.Env) (j : Json) : Except String Json := do
   | some t => pure <| jobj [("unmodelled", jstr t)]
   | none =>
     if T.any (HedVerif.Closed.rowSplit env kBanned cfg) then pure <| jobj [("unmodelled", Json.str "malformed cell in a checked row")] else
-    match Tabular.validateClosed env kBanned cfg T with
+    -- = `Tabular.validateClosed env kBanned cfg T` (`Closed.memoTab_eq`), each string validated once
+    let ccfg := HedVerif.Closed.closeCfg env kBanned cfg
+    match Tabular.validate { ccfg with o := HedVerif.Closed.memoTab ccfg.o (HedVerif.Closed.consulted cfg T).eraseDups } T with
     | .error e => pure <| jobj [("exc", Json.str (C07.excName e))]
     | .ok out => pure <| jobj [("issues", jarr (out.map fun i =>
         jarr [jstr i.kind, jnat i.sev, jopt jnat i.row, jopt jstr i.col, Json.str (C07.srcName i.src), jstr i.text]))]
@@ -56,6 +58,7 @@ def sidecarUnmodelled (env : Validate.Env) (g : SidecarV.Guards) (doc : SidecarV
     let refs := entries.flatMap SidecarV.findRefs
     if entries.any (fun s => HedVerif.Closed.defCount env s != 0) then some "definition in the sidecar"
     else if !refs.isEmpty && (entries.contains SidecarV.NA || refs.contains SidecarV.HED) then some "n/a spliced into a reference"
+    else if entries.any (HedVerif.Closed.poundTreeDiffers env) then some "pound signs counted on the tree"
     else if entries.any (fun s => Validate.unmodelledP env (HedVerif.Closed.parseNoRefs env s)) then some "value class pattern"
     else if full.any (fun s => Validate.unmodelledP env (Validate.parse env s)
                                || Validate.dupRaises env (Validate.parse env s).root0) then some "assembled string"
@@ -67,7 +70,11 @@ def docJson (env : Validate.Env) (j : Json) : Except String Json := do
   match sidecarUnmodelled env g doc with
   | some why => pure <| jobj [("unmodelled", Json.str why)]
   | none =>
-    match SidecarV.validateClosed env g doc with
+    -- = `SidecarV.validateClosed env g doc` (`Closed.memoSidecar_eq`), each string validated once
+    let texts := match sidecarTexts env g doc with
+      | .ok (entries, full) => (entries ++ full).eraseDups
+      | .error _ => []
+    match SidecarV.validate g (HedVerif.Closed.memoSidecar (HedVerif.Closed.sidecarOracle env) texts) doc with
     | .ok is => pure <| jobj [("ok", jarr (is.map C08.issueJson))]
     | .error .unmodelled => pure <| jobj [("unmodelled", Json.str "pandas coercion")]
     | .error e => pure <| jobj [("raise", Json.str (C08.exnName e))]
